@@ -29,10 +29,12 @@ def num (b : Bytes) (pos n : Nat) : Nat := beVal (slice b pos n)
 
 def magic : Bytes := [70, 83, 51, 48]      -- b'FS30' (ZODB._compat.FILESTORAGE_MAGIC)
 def window : Nat := 8096                   -- the read size of `scan`
-/-- idealisation of the allocator: `file.read(n)` with `n ≥ 2^40` raises (MemoryError, or
+/-- idealisation of the allocator: `file.read(n)` with `n ≥ 2^30` raises (MemoryError, or
     OverflowError beyond 2^63), a smaller request succeeds (and may return fewer bytes).  Only the
-    unguarded `read(h.plen)` of `_loadBack_impl` can ask for that much. -/
-def hugeRead : Nat := 2 ^ 40
+    unguarded `read(h.plen)` of `_loadBack_impl` can ask for that much; where the real limit lies
+    depends on the machine, so the harness pins it to the same value (its `open` for fsrecover's
+    input refuses larger requests). -/
+def hugeRead : Nat := 2 ^ 30
 
 /-! ### `read_txn_header` -/
 
